@@ -3,7 +3,7 @@ import json
 import os
 
 import common
-from . import gradual, scoregen, decoder, convert, builders, modsrep, attrs, strains
+from . import gradual, scoregen, decoder, convert, builders, modsrep, attrs, strains, session
 
 REGISTRY = {}
 REGISTRY.update(gradual.REGISTRY)
@@ -14,6 +14,7 @@ REGISTRY.update(builders.REGISTRY)
 REGISTRY.update(modsrep.REGISTRY)
 REGISTRY.update(attrs.REGISTRY)
 REGISTRY.update(strains.REGISTRY)
+REGISTRY.update(session.REGISTRY)
 
 
 def setup():
@@ -38,7 +39,7 @@ def replay(path):
     obj = json.load(open(path))
     prop = obj["property"]
     kind = obj["replay"].get("kind")
-    for mod in (gradual, scoregen, decoder, convert, builders, modsrep, attrs, strains):
+    for mod in (gradual, scoregen, decoder, convert, builders, modsrep, attrs, strains, session):
         if kind in mod.REPLAY_KINDS:
             return mod.replay(prop, obj)
     common.log("no replay handler for kind %r" % kind)
